@@ -4,6 +4,8 @@ mod s_terms;
 mod canon;
 mod s_topology;
 mod s_matrix;
+mod gen;
+mod s_perceive;
 
 fn main() {
     let args: Vec<String> = std::env::args().collect();
@@ -30,6 +32,7 @@ fn main() {
         "terms" => s_terms::run(&mut out, seed, &tier),
         "topology" => s_topology::run(&mut out, seed, &tier),
         "matrix" => s_matrix::run(&mut out, seed, &tier),
+        "perceive" => s_perceive::run(&mut out, seed, &tier),
         other => { eprintln!("unknown stream {}", other); std::process::exit(2); }
     }
     let _ = rest;
